@@ -21,6 +21,7 @@ import TlshVerif.DriverLength
 import TlshVerif.DriverEasy
 import TlshVerif.DriverSerde
 import TlshVerif.DriverAlloc
+import TlshVerif.DriverTables
 
 open TlshVerif
 
@@ -50,7 +51,7 @@ partial def loop (h : IO.FS.Stream) (ctx : Driver.Ctx) (c : Counts) (maxPrint : 
       loop h ctx { c with unknown := c.unknown + 1 } maxPrint
     | some (lhs, observed) =>
       let toks := lhs.splitOn " "
-      match (Driver.eval ctx toks <|> Driver.evalCodec ctx toks <|> Driver.evalCompare ctx toks <|> Driver.evalLength ctx toks <|> Driver.evalEasy ctx toks <|> Driver.evalSerde ctx toks <|> Driver.evalAlloc ctx toks) with
+      match (Driver.eval ctx toks <|> Driver.evalCodec ctx toks <|> Driver.evalCompare ctx toks <|> Driver.evalLength ctx toks <|> Driver.evalEasy ctx toks <|> Driver.evalSerde ctx toks <|> Driver.evalAlloc ctx toks <|> Driver.evalTables ctx toks) with
       | none =>
         IO.println s!"UNKNOWN {c.lines} | {line.take 200}"
         loop h ctx { c with unknown := c.unknown + 1 } maxPrint
